@@ -335,6 +335,8 @@ class Run:
         self.injected: BaseException | None = None
         self.visible_after: dict[str, Any] = {}
         self.sub_published: dict[str, Any] = {}
+        self.via_inject = 0
+        self.annotated_factories = 0
         self.caller_ctx: Any = None
         self.crash: BaseException | None = None
         self.left_exc: BaseException | None = None
@@ -516,7 +518,15 @@ class Run:
                     run.factory_calls[rid] = run.factory_calls.get(rid, 0) + 1
                     return Value(rid, run.factory_calls[rid])
 
-                add_resource_factory(factory, r["given_name"], types=[T])
+                if int(rid) % 3 == 0:
+                    # the types come from the return annotation, a Union of the awaited type and one nobody asks for
+                    from typing import Union
+
+                    factory.__annotations__["return"] = Union[T, type(f"Extra{rid}", (), {})]
+                    add_resource_factory(factory, r["given_name"])
+                    self.annotated_factories += 1
+                else:
+                    add_resource_factory(factory, r["given_name"], types=[T])
             elif r["kind"] == "afactory":
                 async def afactory(rid: str = rid) -> Any:
                     run.factory_calls[rid] = run.factory_calls.get(rid, 0) + 1
@@ -524,7 +534,14 @@ class Run:
                     await checkpoint()
                     return Value(rid, n)
 
-                add_resource_factory(afactory, r["given_name"], types=[T])
+                if int(rid) % 3 == 0:
+                    from typing import Union
+
+                    afactory.__annotations__["return"] = Union[type(f"Extra{rid}", (), {}), T]
+                    add_resource_factory(afactory, r["given_name"])
+                    self.annotated_factories += 1
+                else:
+                    add_resource_factory(afactory, r["given_name"], types=[T])
             else:
                 v = Value(rid)
                 self.values[rid] = v
@@ -572,7 +589,20 @@ class Run:
             t, n = st[1], st[2]
             seq_before = len(self.trace)
             t_before = self.t()
-            got = await get_resource(RTYPES[t], n, optional=True)
+            if (idx + len(path)) % 2:
+                # the same optional lookup made through @inject (an `Optional[T] = resource(name)` parameter of a helper)
+                from typing import Optional
+
+                from asphalt.core import inject, resource
+
+                async def helper(*, dep=resource(n)):  # type: ignore[no-untyped-def]
+                    return dep
+
+                helper.__annotations__["dep"] = Optional[RTYPES[t]]
+                got = await inject(helper)()
+                self.via_inject += 1
+            else:
+                got = await get_resource(RTYPES[t], n, optional=True)
             self.log("optional", path, type=t, name=n, got=repr(got), got_rid=getattr(got, "rid", None), immediate=bool(len(self.trace) == seq_before and self.t() == t_before))
         elif kind == "teardown":
             tid = st[1]
@@ -840,6 +870,10 @@ def check_success(run: Run, *, exact_schedule: bool = True) -> tuple[list[dict[s
             if e["result"] != "ResourceNotFound" or not e.get("immediate"):
                 bad("wait-outside-waited", f"get_resource outside component startup: {e}")
     # ownership: published resources visible in the caller's context; teardown probes run LIFO at exit
+    if run.via_inject:
+        inc("optional_lookups_through_inject", run.via_inject)
+    if run.annotated_factories:
+        inc("factories_typed_by_a_union_return_annotation", run.annotated_factories)
     for sub_id in run.sub_published:
         got = run.visible_after.get("sub:" + sub_id)
         if got is not None:
